@@ -6,61 +6,57 @@ Open Scope N_scope.
 
 (* ---- literal extraction ------------------------------------------------------------------------ *)
 
-Lemma find_quoted_nil : forall f q pos pb, find_quoted f q pos pb [] = [].
-Proof. intros f q pos pb. destruct f as [|f]; reflexivity. Qed.
-
-(* one-character closer [q] not occurring in s *)
-Lemma until_closer_single (q : N) : forall (s acc : list N),
+(* one-character closer [q] not occurring in s: the literal ends at the first q, whatever follows *)
+Lemma until_closer_single (q : N) : forall (s acc rest : list N),
   existsb (N.eqb q) s = false ->
-  until_closer [q] acc (s ++ [q]) = Some (rev acc ++ s ++ [q], []).
+  until_closer [q] acc (s ++ q :: rest) = Some (rev acc ++ s ++ [q], rest).
 Proof.
-  induction s as [|c s IH]; intros acc Hno.
+  induction s as [|c s IH]; intros acc rest Hno.
   - cbn [app until_closer starts_with]. rewrite N.eqb_refl. cbn. reflexivity.
   - cbn [existsb] in Hno. apply orb_false_iff in Hno. destruct Hno as [Hc Hs].
-    change ((c :: s) ++ [q]) with (c :: (s ++ [q])).
+    change ((c :: s) ++ q :: rest) with (c :: (s ++ q :: rest)).
     cbn [until_closer starts_with]. rewrite Hc. cbn [andb].
-    rewrite (IH (c :: acc) Hs). cbn [rev]. rewrite <- app_assoc. reflexivity.
+    rewrite (IH (c :: acc) rest Hs). cbn [rev]. rewrite <- app_assoc. reflexivity.
 Qed.
 
-Lemma quoted_literal_found (q : N) : q <> c_bsl -> forall (s : list N) fuel,
-  existsb (N.eqb q) s = false -> (0 < fuel)%nat ->
-  find_quoted fuel q 0 false (q :: s ++ [q]) = [(0%nat, (length s + 2)%nat, q :: s ++ [q])].
+Lemma quoted_literal_found (q : N) : q <> c_bsl -> forall (s rest : list N),
+  existsb (N.eqb q) s = false ->
+  quoted_at q false ((q :: s ++ [q]) ++ rest) = Some (q :: s ++ [q], rest).
 Proof.
-  intros Hq s fuel Hno Hf.
-  destruct fuel as [|f]; [lia|].
+  intros Hq s rest Hno.
   assert (Hqb : (q =? c_bsl) = false) by (apply N.eqb_neq; exact Hq).
-  cbn [find_quoted].
-  unfold opener_at. cbn [count_bsl]. rewrite Hqb. cbn [drop_n].
+  unfold quoted_at, opener_at. cbn [app count_bsl]. rewrite Hqb. cbn [drop_n].
   rewrite N.eqb_refl. cbn [Nat.eqb orb andb repeat app length drop_n].
-  pose proof (until_closer_single q s [] Hno) as Hu.
+  rewrite <- app_assoc. cbn [app].
+  pose proof (until_closer_single q s [] rest Hno) as Hu.
   match goal with
   | |- context [until_closer ?a ?b ?c] =>
-      replace (until_closer a b c) with (Some (rev [] ++ s ++ [q], @nil N)) by (symmetry; exact Hu)
+      replace (until_closer a b c) with (Some (rev [] ++ s ++ [q], rest)) by (symmetry; exact Hu)
   end.
-  cbn [rev app]. rewrite find_quoted_nil.
-  f_equal. f_equal. f_equal.
-  cbn [length]. rewrite app_length. cbn [length]. lia.
+  cbn [rev app]. reflexivity.
 Qed.
 
-Lemma sq_literal_found : forall s fuel, no_sq s = true -> (0 < fuel)%nat ->
-  find_quoted fuel c_sq 0 false (sq s) = [(0%nat, (length s + 2)%nat, sq s)].
+Lemma sq_literal_found : forall s rest, no_sq s = true ->
+  quoted_at c_sq false (sq s ++ rest) = Some (sq s, rest).
 Proof.
-  intros s fuel Hno Hf. unfold sq.
+  intros s rest Hno. unfold sq.
   apply quoted_literal_found.
   - unfold c_sq, c_bsl. discriminate.
   - unfold no_sq, has_char in Hno. apply negb_true_iff in Hno. exact Hno.
-  - exact Hf.
 Qed.
 
-Lemma dq_literal_found : forall s fuel, no_dq s = true -> (0 < fuel)%nat ->
-  find_quoted fuel c_dq 0 false (dq s) = [(0%nat, (length s + 2)%nat, dq s)].
+Lemma dq_literal_found : forall s rest, no_dq s = true ->
+  quoted_at c_dq false (dq s ++ rest) = Some (dq s, rest).
 Proof.
-  intros s fuel Hno Hf. unfold dq.
+  intros s rest Hno. unfold dq.
   apply quoted_literal_found.
   - unfold c_dq, c_bsl. discriminate.
   - unfold no_dq, has_char in Hno. apply negb_true_iff in Hno. exact Hno.
-  - exact Hf.
 Qed.
+
+(* a double-quoted literal is not mistaken for a single-quoted one at its first character *)
+Lemma dq_not_sq_opener : forall s rest, quoted_at c_sq false (dq s ++ rest) = None.
+Proof. intros s rest. reflexivity. Qed.
 
 (* ---- remove_quotes ----------------------------------------------------------------------------- *)
 
